@@ -6,7 +6,10 @@ Model: lean/LenaModel/Model/C08.lean, theorems lean/LenaModel/Props/C08.lean, dr
 
 Wire form of a value (cases, model protocol): scalars are JSON scalars (null, booleans, integers, strings); a dictionary is
 {"d": [[key, value], ...]} in insertion order (the order matters for to_string and must survive json.dumps(sort_keys=True));
-{"L": [...]} is a list and {"py": "set"} a set (both only in cases that are not sent to the model).
+{"L": [...]} is a list, {"f": repr} a float, {"o": str|null} a foreign object; {"d": [...], "c": tag} an instance of a dict
+subclass (od/dd/cx/md), {"o": .., "ix": W} a foreign object that can be indexed; {"T": [...]} a tuple, {"S": [...]} a set,
+{"FS": [...]} a frozenset, {"BA": [...]} a bytearray, {"box": W} a foreign object with state (value model: not sent; heap model
+and oracle: yes), {"py": "set"} a set.
 
 Cases:
   {"op":"addr","d":W,"alpha":[..],"maxlen":n}     every key path over alpha of length 0..maxlen, three notations, contains
@@ -27,15 +30,17 @@ Keys of dc/fuw/setctx/s2d may also be non-strings (an int, null, a wire list): t
 import copy
 import itertools
 import json
+import re
 
 from harness.common import exc_name, jdump
 
 PID = "C08"
 TITLE = "Context addressing, formatting and update elements touch exactly the named item"
-LEAN_MODULES = ["LenaModel.Props.C08"]
+LEAN_MODULES = ["LenaModel.Props.C08", "LenaModel.Props.C08Heap"]
 LEAN_SOURCES = ["LenaModel/Model/C08.lean", "LenaModel/Model/C08Spec.lean", "LenaModel/Props/C08.lean", "LenaModel/Lemmas/C08.lean",
                 "LenaModel/Lemmas/C08Json.lean", "LenaModel/Lemmas/C08JsonV.lean",
-                "LenaModel/Lemmas/C08Fmt.lean", "LenaModel/Lemmas/C08Str.lean"]
+                "LenaModel/Lemmas/C08Fmt.lean", "LenaModel/Lemmas/C08Str.lean",
+                "LenaModel/Model/C08Heap.lean", "LenaModel/Lemmas/C08Heap.lean", "LenaModel/Props/C08Heap.lean"]
 DRIVER = "drivers/C08.lean"
 THEOREMS = [
     # the three notations address the same item; get_recursively / str_to_dict / contains
@@ -91,6 +96,15 @@ THEOREMS = [
     # results are well-formed dictionaries again
     "Lena.C08.update_keeps_wf",
     "Lena.C08.delete_keeps_wf",
+    # object identities: "a deep copy of another context item" (Props/C08Heap.lean)
+    "Lena.C08.deep_copy_spec",
+    "Lena.C08.uc_deep_copy",
+    "Lena.C08.uc_no_alias",
+    "Lena.C08.uc_heap_refines",
+    "Lena.C08.uc_source_spec",
+    # to_string on values with tuples
+    "Lena.C08.to_string_tuples_perm",
+    "Lena.C08.to_string_tuples_inj_partial",
 ]
 # true by definition / one branch of the model restated / Boolean encodings of hypotheses / a proved negation: audited
 # (built, axiom-checked) but not counted as proof obligations of the property (review F7)
@@ -108,6 +122,10 @@ AUX_THEOREMS = [
     "Lena.C08.to_string_raw_keys",
     "Lena.C08.context_element",
     "Lena.C08.to_string_inj_full_false",
+    "Lena.C08.poke_unreachable",
+    "Lena.C08.uc_missing_untouched",
+    "Lena.C08.to_string_tuples_canonical",
+    "Lena.C08.to_string_tuple_list_collide",
     "Lena.C08.pieceWFB_iff",
     "Lena.C08.illFormedB_iff",
     "Lena.C08.strFieldsB_iff",
@@ -130,18 +148,41 @@ TRUSTED = [
     "str.isspace() blanks; the jinja2 fragment 'literal text and {{dotted.name}}' with ChainableUndefined/StrictUndefined "
     "(blanks inside the braces per str.isspace()); copy.deepcopy as the identity on values",
     "JSON line protocol encoders (harness/props/c08.py, drivers/C08.lean)",
+    "copy.deepcopy as transcribed in Model/C08Heap.lean (deepcopyH: every dictionary, list and other mutable object reachable from "
+    "the argument, inside tuples too, is a new object; scalars are shared) - validated by the in-place-change observations; "
+    "json.dumps writes a tuple as an array (toStringH) - validated by the tostr families",
 ]
 ASSUMPTIONS = [
     "contexts are built from None, bool, int, float (by its repr; nan excluded from equality), str, objects of other classes "
     "(observed only through str()), lists and string-keyed dictionaries; equality of contexts is type-strict (True and 1, 1 and "
-    "1.0 differ, as they do for to_string); dictionaries with other keys exist only in the to_string sub-model JVal",
+    "1.0 differ, as they do for to_string); dictionaries with other keys exist only in the to_string sub-model JVal; tuples, sets, "
+    "frozensets, bytearrays and foreign objects with state exist in the heap model (UpdateContext, to_string) and in the oracle",
     "str() of a container is modelled (repr in insertion order) when its strings are printable ASCII without quotes and "
     "backslashes; otherwise the model answers 'unmodelled' and only the oracle judges",
     "key paths are lists of non-empty, dot-free keys (WFPath): dotted strings with empty components are documented as undefined; "
     "they are still compared with the model, but the oracle is silent on them",
     "names used in jinja2 fields are not attributes of dict/str/int (items, keys, real, ...) nor jinja2 globals/keywords",
-    "aliasing (deep copies) is not expressible in the value model; it is checked on the real code by mutating the inserted item "
-    "and re-reading the default, the update argument, the source item and a second call",
+    "aliasing (deep copies) is not expressible in the value model; it is stated in the heap model (Model/C08Heap.lean: "
+    "dictionaries, lists and other mutable objects carry addresses, tuples/frozensets are immutable containers of possibly mutable "
+    "members; values are trees) and observed on the real code by changing in place every dictionary, list, set, bytearray and "
+    "foreign object with state reachable from the inserted item (through tuples too) and re-reading the default, the update "
+    "argument, the source item and a second call; the heap model is compared with those observations; sharing INSIDE one value "
+    "(the memo of copy.deepcopy) is not modelled",
+    "contexts and sub-dictionaries may be instances of dict subclasses (OrderedDict, defaultdict(dict), lena.context.Context, a "
+    "class with __missing__): for lena they are dictionaries, the model gets the dictionary of their items. jinja2 reads a nested "
+    "dictionary with obj[name], which for a class with __missing__ answers (and for defaultdict stores) an item that is not there: "
+    "format-string updates of UpdateContext (value=False) are not exercised on such contexts - third-party behaviour, recorded in "
+    "notes/adversary_C08.md - while get_recursively, contains, format_context, format_update_with, DeleteContext and "
+    "UpdateContext with a plain value or value=True are",
+    "a foreign object that can be indexed with a string (class Idx: __getitem__/__contains__/get/keys, not a dict) is a value like "
+    "any other: a key path through it names nothing (model: a foreign object); jinja2 would subscript it, so it is not put under "
+    "format-string updates either",
+    "JSON has one array type: to_string writes a tuple like a list, so {'a': (1, 2)} and {'a': [1, 2]} - different for Python - "
+    "give the same string (to_string_tuple_list_collide). 'Different dictionaries give different strings' is demanded up to "
+    "tuple/list; 'equal dictionaries give equal strings' is demanded for Python's own == (a tuple equals only a tuple)",
+    "JUDGEMENT (adversary candidate 5): UpdateContextFromStatic.run (lena/meta/elements.py, an anchored file because SetContext "
+    "lives there) is not one of the callables the statement names (UpdateContext, DeleteContext, format_update_with); that it "
+    "copies the static context is the subject of C13, whose check reports the candidate with a failing input. Not checked here",
     "a builtin ValueError raised by str.format at call time for a template that is not 'literals and {{fields}}' is the documented "
     "behaviour of format_context and not counted as a foreign exception",
     "'different dictionaries give different strings' is proved at the level of tokens for all values and at the level of "
@@ -179,8 +220,18 @@ RULE = ("addr: every context over keys {a,b} of depth <= 2 with leaves {1,'b',No
         "likewise incl. non-string keys; context: Context.__call__/__getattr__/__repr__ on the item set; every case also executes "
         "the specification-side definitions (WFPath, EntriesWF, Piece.WF, StrFields, renderSpec, templateString, IllFormed, "
         "NotTemplate, ucSet/delPath/nestPath/subDict, pyStrVal, pyEq) in the driver and compares them with Python references; "
-        "seeded random cases of every kind. Non-trivial: a present item is returned/rendered/changed, or a documented "
-        "exception is raised.")
+        "seeded random cases of every kind. Adversary round 1: addr/getx/format/fuw/setctx/upd/uc/dc on contexts whose "
+        "dictionaries are OrderedDict/defaultdict/lena Context/__missing__ instances (every level, one class or mixed) and with "
+        "indexable foreign objects as values; format_context fields with blanks at the ends of a key ([' a'], ['a ', 'b '], ...) x "
+        "contexts holding both ' a' and 'a', every string of length 5..6 (thorough 7) over '{} a.' with a blank and balanced "
+        "braces; to_string on values with tuples (dictionaries inside tuples in every key order), floats from a pool of awkward "
+        "values (0.1+0.2, 1+1e-13, 5e-324, 2**53, ...) and random ones, long strings, each with up to 40-60 near misses (the "
+        "neighbouring floats, the float rounded to 17..3 digits, int/str/bool confusions, strings that differ in a blank, the case, "
+        "the last character, a homoglyph, an NFC/NFD form, a key renamed or moved one level, a member dropped/added/swapped, a "
+        "list for a tuple); format_update_with/SetContext/UpdateContext with dictionary and list VALUES that hold formatting "
+        "strings; UpdateContext inserting (plain value / value=True source / default) tuples of lists, sets, tuples holding "
+        "dictionaries, frozensets, bytearrays, foreign objects with state - also through the heap model. "
+        "Non-trivial: a present item is returned/rendered/changed, or a documented exception is raised.")
 CASE_TIMEOUT = 20
 
 MISSING = object()
@@ -205,40 +256,165 @@ class Obj:
         return "<Obj %r>" % (self.s,)
 
     def __eq__(self, other):
-        return isinstance(other, Obj) and other.s == self.s
+        return type(other) is type(self) and other.s == self.s
 
     def __hash__(self):
         return hash(self.s)
 
 
+class Idx(Obj):
+    """a foreign object that can be indexed with a string (a mapping that is not a `dict`: think of UserDict or a
+    MappingProxy): every key is 'present' and gives 7.  For lena it is a value like any other - a key path that goes through it
+    names nothing.  What is written into it is remembered (and seen by ==)."""
+
+    def __init__(self, s):
+        Obj.__init__(self, s)
+        self.m = {}
+
+    def __getitem__(self, k):
+        return self.m.get(k, 7)
+
+    def __setitem__(self, k, v):
+        self.m[k] = v
+
+    def __delitem__(self, k):
+        self.m[k] = "deleted"
+
+    def __contains__(self, k):
+        return True
+
+    def get(self, k, default=None):
+        return self.m.get(k, 7)
+
+    def keys(self):
+        return ["a", "b"]
+
+    def __iter__(self):
+        return iter(["a", "b"])
+
+    def __len__(self):
+        return 2
+
+    def __repr__(self):
+        return "<Idx %r %r>" % (self.s, self.m)
+
+    def __eq__(self, other):
+        return type(other) is type(self) and other.s == self.s and other.m == self.m
+
+    def __hash__(self):
+        return hash(self.s)
+
+
+class Box:
+    """a foreign object with state that can be changed in place (a deep copy has its own state)"""
+
+    def __init__(self, x):
+        self.x = x
+
+    def __repr__(self):
+        return "<Box %r>" % (self.x,)
+
+    def __eq__(self, other):
+        return type(other) is type(self) and strict_eq(other.x, self.x)
+
+    __hash__ = None
+
+
+class MissingDict(dict):
+    """a dict subclass that answers d[absent key] with {} (it does not store it): `key in d`, d.get and d[present key] are
+    those of dict"""
+
+    def __missing__(self, key):
+        return {}
+
+
+def _dict_classes():
+    import collections
+    import lena.context
+    return {"od": collections.OrderedDict, "dd": lambda items=(): collections.defaultdict(dict, items),
+            "cx": lambda items=(): lena.context.Context(items, formatter=_context_text), "md": MissingDict}
+
+
+def _context_text(c):
+    """formatter of the lena.context.Context instances used as contexts (the default one is json.dumps, which cannot write a
+    foreign object)"""
+    return "Context(%s)" % dict.__repr__(c)
+
+
+def _dict_tag(v):
+    import collections
+    if type(v) is dict:
+        return None
+    if isinstance(v, collections.defaultdict):
+        return "dd"
+    if isinstance(v, collections.OrderedDict):
+        return "od"
+    if isinstance(v, MissingDict):
+        return "md"
+    if type(v).__name__ == "Context":
+        return "cx"
+    return "sub"
+
+
 def enc(v, _stack=()):
-    if isinstance(v, (dict, list)):
+    if isinstance(v, (dict, list, tuple, Box)):
         if id(v) in _stack:
             return {"py": "cycle"}          # a container that contains itself (only a broken implementation makes one)
         _stack = _stack + (id(v),)
     if isinstance(v, dict):
-        return {"d": [[k, enc(x, _stack)] for k, x in v.items()]}
+        w = {"d": [[k, enc(x, _stack)] for k, x in v.items()]}
+        tag = _dict_tag(v)
+        if tag:
+            w["c"] = tag                   # an instance of a dict subclass
+        return w
     if isinstance(v, list):
         return {"L": [enc(x, _stack) for x in v]}
+    if isinstance(v, tuple):
+        return {"T": [enc(x, _stack) for x in v]}
     if v is None or isinstance(v, (bool, int, str)):
         return v
     if isinstance(v, float):
         return {"f": repr(v)}
+    if isinstance(v, Idx):
+        return {"o": v.s, "ix": enc(v.m)}
     if isinstance(v, Obj):
         return {"o": v.s}
+    if isinstance(v, Box):
+        return {"box": enc(v.x, _stack)}
+    if isinstance(v, (set, frozenset)):
+        return {"FS" if isinstance(v, frozenset) else "S": sorted((enc(x) for x in v), key=jdump)}
+    if isinstance(v, bytearray):
+        return {"BA": list(v)}
     return {"py": type(v).__name__}
 
 
 def dec(w):
     if isinstance(w, dict):
         if "d" in w:
-            return {k: dec(x) for k, x in w["d"]}
+            items = [(k, dec(x)) for k, x in w["d"]]
+            if w.get("c") in ("od", "dd", "cx", "md"):
+                return _dict_classes()[w["c"]](items)
+            return dict(items)
         if "L" in w:
             return [dec(x) for x in w["L"]]
+        if "T" in w:
+            return tuple(dec(x) for x in w["T"])
         if "f" in w:
             return float(w["f"])
         if "o" in w:
+            if "ix" in w:
+                o = Idx(w["o"])
+                o.m = dec(w["ix"]) if isinstance(w["ix"], dict) else {}
+                return o
             return Obj(w["o"])
+        if "box" in w:
+            return Box(dec(w["box"]))
+        if "S" in w:
+            return set(dec(x) for x in w["S"])
+        if "FS" in w:
+            return frozenset(dec(x) for x in w["FS"])
+        if "BA" in w:
+            return bytearray(w["BA"])
         if w.get("py") == "set":
             return {1, 2}
         if w.get("py") == "tuple":
@@ -259,7 +435,8 @@ def decj(w):
 
 
 def modelable(w):
-    """None/bool/int/str/float, objects with a known str(), lists and string-keyed dictionaries exist in the model"""
+    """None/bool/int/str/float, objects with a known str(), lists and string-keyed dictionaries exist in the model (an
+    instance of a dict subclass is sent as the dictionary of its items, an indexable foreign object as a foreign object)"""
     if isinstance(w, dict):
         if "d" in w:
             return all(isinstance(k, str) and modelable(x) for k, x in w["d"])
@@ -269,16 +446,65 @@ def modelable(w):
     return w is None or isinstance(w, (bool, int, str))
 
 
-def strict_eq(a, b, _depth=0):
-    """equality of contexts that does not identify True with 1"""
+def wire_has_subclass(w):
+    """is a dictionary of the wire value an instance of a dict subclass (its str() is not the repr of the dictionary)"""
+    if isinstance(w, dict):
+        if "d" in w:
+            return "c" in w or any(wire_has_subclass(x) for _, x in w["d"])
+        for k in ("L", "T"):
+            if k in w:
+                return any(wire_has_subclass(x) for x in w[k])
+    return False
+
+
+def tuples_as_lists(w):
+    """json.dumps writes a tuple as an array: the wire value with every tuple replaced by a list (to_string only)"""
+    if isinstance(w, dict):
+        if "d" in w:
+            return {"d": [[k, tuples_as_lists(x)] for k, x in w["d"]]}
+        if "L" in w or "T" in w:
+            return {"L": [tuples_as_lists(x) for x in w.get("L", w.get("T"))]}
+    return w
+
+
+def has_tuple(w):
+    if isinstance(w, dict):
+        if "T" in w:
+            return True
+        if "d" in w:
+            return any(has_tuple(x) for _, x in w["d"])
+        if "L" in w:
+            return any(has_tuple(x) for x in w["L"])
+    return False
+
+
+def for_model(j):
+    """a request as the driver reads it: the class of a dict-subclass instance and the contents of an indexable object
+    are not part of the model's values"""
+    if isinstance(j, dict):
+        if "d" in j and "c" in j:
+            j = {k: v for k, v in j.items() if k != "c"}
+        if "o" in j and "ix" in j:
+            j = {k: v for k, v in j.items() if k != "ix"}
+        return {k: for_model(v) for k, v in j.items()}
+    if isinstance(j, list):
+        return [for_model(v) for v in j]
+    return j
+
+
+def strict_eq(a, b, _depth=0, arrays=False):
+    """equality of contexts that does not identify True with 1 (an instance of a dict subclass equals the dictionary with
+    its items, as in Python).  arrays=True: a tuple and a list with equal members are identified (JSON has one array type)"""
     if _depth > 60:
         return False                # a cyclic structure is never equal to a reference value
     if isinstance(a, dict) and isinstance(b, dict):
-        return a.keys() == b.keys() and all(strict_eq(a[k], b[k], _depth + 1) for k in a)
-    if isinstance(a, list) and isinstance(b, list):
-        return len(a) == len(b) and all(strict_eq(x, y, _depth + 1) for x, y in zip(a, b))
+        return a.keys() == b.keys() and all(strict_eq(a[k], b[k], _depth + 1, arrays) for k in a)
+    if isinstance(a, (list, tuple)) and isinstance(b, (list, tuple)) and (arrays or type(a) is type(b)):
+        return len(a) == len(b) and all(strict_eq(x, y, _depth + 1, arrays) for x, y in zip(a, b))
     if isinstance(a, float) and isinstance(b, float):
         return repr(a) == repr(b)
+    if isinstance(a, Box) and isinstance(b, Box):
+        return strict_eq(a.x, b.x, _depth + 1, arrays)
     return type(a) is type(b) and a == b
 
 
@@ -288,6 +514,13 @@ def canon_w(w):
         return {"d": sorted(([k, canon_w(x)] for k, x in w["d"]), key=lambda kv: kv[0])}
     if isinstance(w, dict) and "L" in w:
         return {"L": [canon_w(x) for x in w["L"]]}
+    if isinstance(w, dict) and "o" in w:
+        return {"o": w["o"]}
+    for tag in ("T", "S", "FS"):
+        if isinstance(w, dict) and tag in w:
+            return {tag: [canon_w(x) for x in w[tag]]}
+    if isinstance(w, dict) and "box" in w:
+        return {"box": canon_w(w["box"])}
     return w
 
 
@@ -431,18 +664,6 @@ def rand_ctx(rng, keys, depth, leaves=(1, "b", None, False, 0, "", True, "1", -3
     return d
 
 
-def scramble(v, mode):
-    """an equal dictionary with another insertion order at every level"""
-    if not isinstance(v, dict):
-        return copy.deepcopy(v)
-    items = list(v.items())
-    if mode == "rev":
-        items = items[::-1]
-    elif mode == "rot" and items:
-        items = items[1:] + items[:1]
-    return {k: scramble(x, mode) for k, x in items}
-
-
 def mutants(v):
     """dictionaries that differ from v in exactly one place"""
     out = []
@@ -469,6 +690,156 @@ def mutants(v):
             w[k] = 1
             out.append(w)
     return out
+
+
+def dress(v, pick):
+    """the same context with every dictionary an instance of the dict subclass pick() names (None: a plain dict): OrderedDict,
+    defaultdict(dict), lena.context.Context, MissingDict - to lena a context of such a class is a dictionary"""
+    if isinstance(v, dict):
+        tag = pick()
+        items = [(k, dress(x, pick)) for k, x in v.items()]
+        return _dict_classes()[tag](items) if tag else dict(items)
+    if isinstance(v, list):
+        return [dress(x, pick) for x in v]
+    if isinstance(v, tuple):
+        return tuple(dress(x, pick) for x in v)
+    return copy.deepcopy(v)
+
+
+DICT_TAGS = ("od", "dd", "cx", "md")
+
+
+def scramble(v, mode):
+    """an equal value with another insertion order in every dictionary, at every level (also inside lists and tuples)"""
+    if isinstance(v, (list, tuple)):
+        return type(v)(scramble(x, mode) for x in v)
+    if not isinstance(v, dict):
+        return copy.deepcopy(v)
+    items = list(v.items())
+    if mode == "rev":
+        items = items[::-1]
+    elif mode == "rot" and items:
+        items = items[1:] + items[:1]
+    return {k: scramble(x, mode) for k, x in items}
+
+
+def _float_neighbours(x):
+    import math
+    out = []
+    if math.isnan(x) or math.isinf(x):
+        return [0.0, 1.0, None, "Infinity", "NaN"]
+    out += [math.nextafter(x, math.inf), math.nextafter(x, -math.inf), x * (1 + 2.0 ** -40), x * (1 - 2.0 ** -44), -x]
+    for fmt in ("%.17g", "%.16g", "%.15g", "%.12g", "%.8g", "%.6g", "%.3g", "%f", "%e"):
+        out.append(float(fmt % x))
+    out.append(round(x, 10))
+    out.append(round(x, 2))
+    if x == int(x) and abs(x) < 1e300:
+        out.append(int(x))
+        out.append(int(x) + 1)
+    out.append(repr(x))
+    return out
+
+
+def near_values(x):
+    """values that differ from the leaf x 'as little as possible' (what a lossy encoder would confuse it with)"""
+    if isinstance(x, bool):
+        return [int(x), str(x), str(x).lower(), not x, None]
+    if isinstance(x, float):
+        return _float_neighbours(x)
+    if isinstance(x, int):
+        return [x + 1, x - 1, float(x), str(x), -x, x + 2 ** 53, bool(x) if x in (0, 1) else x * 10, [x], None]
+    if isinstance(x, str):
+        return [x + " ", " " + x, x.upper(), x.lower(), x[:-1], x + x[-1:], x + "\x00", x.strip(), x.replace(" ", ""),
+                x.replace("e", "\u00e9"), x[:40], x[-40:], [x], x.replace("a", "\u0430"), None, "\ufeff" + x, x + "\u200b"]
+    if x is None:
+        return ["null", "None", 0, False, "", {}, []]
+    return []
+
+
+def near_misses(v, limit=None):
+    """values that differ from v in exactly one place, by a 'near' value: a neighbouring float, a renamed or moved key, a list
+    or tuple with one member changed, dropped, added or swapped, a list for a tuple"""
+    out = []
+    if isinstance(v, dict):
+        for k in list(v):
+            for m in near_misses(v[k]):
+                w = dict(v)
+                w[k] = m
+                out.append(w)
+            w = {kk: x for kk, x in v.items() if kk != k}
+            out.append(w)
+            for k2 in (k + " ", " " + k, k.upper(), k + "\x00", k[:-1], k + "."):
+                if k2 not in v:
+                    out.append({(k2 if kk == k else kk): x for kk, x in v.items()})
+            if isinstance(v[k], dict):
+                for kk2, x2 in v[k].items():
+                    if kk2 not in v:                # an item moved one level up
+                        w = {kk: (x if kk != k else {a: b for a, b in x.items() if a != kk2}) for kk, x in v.items()}
+                        w[kk2] = x2
+                        out.append(w)
+                out.append({kk: (x if kk != k else list(x.items())) for kk, x in v.items()})
+                out.append({kk: (x if kk != k else [x]) for kk, x in v.items()})
+        for k in ("a", "zz", ""):
+            if k not in v:
+                w = dict(v)
+                w[k] = None
+                out.append(w)
+    elif isinstance(v, (list, tuple)):
+        t = type(v)
+        for i in range(len(v)):
+            for m in near_misses(v[i]):
+                out.append(t(list(v[:i]) + [m] + list(v[i + 1:])))
+            out.append(t(list(v[:i]) + list(v[i + 1:])))
+        out.append(t(list(v) + [None]))
+        out.append(t([list(v)]))
+        if len(v) > 1:
+            out.append(t(list(v[1:]) + list(v[:1])))
+        out.append({"0": list(v)})
+    else:
+        out = near_values(v)
+    if limit is not None and len(out) > limit:
+        step = len(out) / float(limit)
+        out = [out[int(i * step)] for i in range(limit)]
+    return out
+
+
+def rand_value(rng, depth, tuples=True):
+    """a JSON-serialisable value with floats, long strings, nested lists and tuples"""
+    r = rng.random()
+    if depth <= 0 or r < 0.45:
+        k = rng.random()
+        if k < 0.35:
+            return rng.choice([0.1 + 0.2, 1.0000000000001, 1e-13, 2.5000000000000004, 1e16, 1e22, 123456.789, 5e-324, -0.0, 0.3,
+                               1 / 3.0, 1e300, 0.1, 100.0, 1.5e-7, 2.0 ** 53, 9007199254740993.0, rng.random(), rng.random() * 1e6,
+                               rng.uniform(-1, 1) * 10 ** rng.randint(-20, 20), float("inf"), 3.141592653589793])
+        if k < 0.55:
+            return rng.choice([0, 1, -1, 2 ** 53, 2 ** 53 + 1, 10 ** 20, 10 ** 20 + 1, 255, -(2 ** 63), rng.randint(-10 ** 6, 10 ** 6)])
+        if k < 0.85:
+            return rng.choice(["", "x", "x y", "Name", "name", "a" * 60 + "b", "a" * 60 + "c", "é", "é", "1", "1.0", "true",
+                               "null", "\\newcommand{\\x}{1}", "{{a}}", "tab\there", "line\nbreak", "q\"uote", "[1,2]", "{}"])
+        return rng.choice([None, True, False])
+    if r < 0.7:
+        return {k: rand_value(rng, depth - 1, tuples) for k in rng.sample(["a", "b", "c", "B", "a b", "unit", "name"], rng.randint(0, 3))}
+    xs = [rand_value(rng, depth - 1, tuples) for _ in range(rng.randint(0, 3))]
+    return tuple(xs) if (tuples and rng.random() < 0.5) else xs
+
+
+ALIAS_VALUES = [
+    ([0, 1, 2], [0, 5]),                    # a tuple of lists (histogram edges)
+    {"pt>5"},                               # a set
+    ({"colour": "red"}, 2),                 # a tuple holding a dictionary
+    [({"k": [1]},)],
+    {"k": ([1, {"z": 2}], "s")},
+    Box([1, 2]),                            # a foreign object with state
+    [Box({"q": 1})],
+    (Box(1), [Box(2)]),
+    frozenset({("a", 1)}),
+    bytearray(b"ab"),
+    (1, (2, [3])),
+    {"s": {1, 2}, "t": (1, {2})},
+    [[{"deep": [{"er": (1, [2])}]}]],
+    Idx("ix"),
+]
 
 
 ITEM_CTXS = [
@@ -749,7 +1120,10 @@ def gen_cases(ctx):
                                      "recursively": rec}
                                 if dflt is not MISSING:
                                     a["default"] = enc(dflt)
-                                yield ({"op": "uc", "args": a, "items": items})
+                                c = {"op": "uc", "args": a, "items": items}
+                                if "v" in upd or (value and "pieces" in upd and len(upd["pieces"]) == 1):
+                                    c["alias"] = 1          # also run through the heap model (object identities)
+                                yield (c)
     # templates at the edge of "{{key}}" (blanks, text after the braces): /verif/notes/C08_defect_2
     for t in VALUE_TEMPLATES + ["{{ a.b }}", "{{a.b}}"]:
         for value in (False, True):
@@ -848,6 +1222,152 @@ def gen_cases(ctx):
         its = [None] + [enc(rand_ctx(rng, ["a", "b", "c"], 3)) for _ in range(6)]
         yield ({"op": "dc", "key": rng.choice([{"s": ".".join(p)}, {"l": p}, {"t": p}]), "items": its})
 
+    # ==== adversary round 1: kinds of values, containers and templates the families above never produced ==================
+    yield from _gen_round1(ctx, rng, thorough, items)
+
+
+def _gen_round1(ctx, rng, thorough, items):
+    # ---- contexts that are instances of dict subclasses; foreign objects that can be indexed with a string ------------
+    def picker(tag):
+        return lambda: tag
+
+    def rnd_picker():
+        return lambda: rng.choice(DICT_TAGS + (None,))
+
+    small = all_dicts(["a", "b"], [1, "b"], 2)
+    for tag in DICT_TAGS:
+        for d in (small if thorough else rng.sample(small, 40)):
+            yield {"op": "addr", "d": enc(dress(d, picker(tag))), "alpha": ["a", "b", "1"], "maxlen": 3}
+    ix_leaves = RICH_LEAVES[:10] + (Idx("b"), Idx("ix"), Idx(None), [1, 2], 2.5, Obj("b"))
+    for _ in range(1500 if thorough else 120):
+        keys = rng.choice([["a", "b", "c"], ["a", "1", "b"], ["a", "b", "ix"]])
+        d = dress(rand_ctx(rng, keys, rng.randint(1, 3), ix_leaves), rnd_picker())
+        yield {"op": "addr", "d": enc(d), "alpha": rng.sample(["a", "b", "c", "1", "ix", "7", "b"], 3), "maxlen": 3}
+    base = {"a": {"b": 1, "c": {"a": 2}, "i": Idx("i")}, "b": 5}
+    for tag in DICT_TAGS:
+        d = enc(dress(base, picker(tag)))
+        for k in ({"s": "a.c.a"}, {"s": "a.c.b"}, {"s": "c"}, {"s": "c.a"}, {"s": "a.b.c"}, {"s": "a.i.a"}, {"s": "a.i"}, {"l": ["a", "z"]},
+                  {"l": ["z", "a"]}, {"l": ["a", "i", "b"]}, {"k": enc({"a": {"z": {}}})}, {"k": enc({"z": "a"})}, {"k": enc({"a": {"i": "a"}})},
+                  {"l": []}, {"s": ""}):
+            for dflt in (MISSING, None, enc({"x": 1})):
+                c = {"op": "getx", "d": d, "keys": k}
+                if dflt is not MISSING:
+                    c["default"] = dflt
+                yield c
+    # ---- format_context: keys with blanks at their ends in a field, contexts of the kinds above ---------------------------
+    bctxs = [enc({" a": "addressed", "a": "other", "a ": {"b ": 1, "b": 2, " a": "x"}, "b": {" a": 3}}),
+             enc({"a": 1}), enc({" a": {"b ": "only blank keys"}}), enc({}),
+             enc(dress({"a": {"b": 2}, "b": "s"}, picker("dd"))), enc(dress({"b": {"a": 1}, "a": {"a": {}}}, picker("md"))),
+             enc({"a": Idx("ix"), "b": {"a": Idx("q"), "b": 1}}), enc(dress({"a": {"b": {"c": 0}}}, picker("cx")))]
+    bpaths = [[" a"], ["a "], ["a"], [" a "], ["a ", "b "], ["a ", " a"], ["b", " a"], ["a", "b"], ["b", "a"], ["a", "b", "c"], ["a", "a"]]
+    for pieces in field_templates(bpaths, 2 if thorough else 1):
+        yield {"op": "format", "pieces": pieces, "ctxs": bctxs}
+    for _ in range(600 if thorough else 80):
+        pieces = []
+        for _i in range(rng.randint(1, 3)):
+            if rng.random() < 0.5:
+                pieces.append(["lit", rng.choice(["x_", " ", ": !", "a.b", " a "])])
+            pieces.append(["field", rng.choice(bpaths)])
+        if rng.random() < 0.4:
+            pieces.append(["lit", rng.choice([" ", "_y"])])
+        yield {"op": "format", "pieces": pieces, "ctxs": bctxs}
+    raw_b = [enc({}), enc({"a": 1, " a": 2, "a ": 3, " ": 4}), enc({" a": {" a": 5, "a": 6}, "a": {"a ": 7}}), enc({"a": {"a": 2}})]
+    for n in range(5, 8 if thorough else 7):
+        for t in itertools.product("{} a.", repeat=n):
+            r = "".join(t)
+            if " " in r and r.count("{") == r.count("}") >= 2 and "{{" in r:
+                yield {"op": "format", "raw": r, "ctxs": raw_b}
+    for r in ("{{ a}}", "{{a }}", "{{ a }}", "x_{{ a}}", "{{ a.a }}", "{{a. a}}", "{{ a}}{{a }}", "{{\ta}}", "{{a\n}}", "{{\xa0a}}", "{{ }}", "{{  }}",
+              "{{ a}} {{a}}", "{{a}} ", " {{a}}"):
+        yield {"op": "format", "raw": r, "ctxs": raw_b + [enc({"\ta": 1, "a\n": 2, "\xa0a": 3, "  ": 4})]}
+    # ---- to_string: tuples, nested lists, near misses (neighbouring floats, long strings, renamed keys) -----------------------
+    fixed = [{"variables": ({"name": "x", "unit": "cm"}, {"name": "y", "unit": "cm"})}, {"a": ((1, 2), [3, (4, {"z": 1, "y": 2})])},
+             {"x": 0.1 + 0.2}, {"scale": 1.0000000000001}, {"edges": [0.0, 1e-13]}, {"a": {"b": 2.5000000000000004}}, {"t": ()},
+             {"a": [{"b": [{"d": 1, "c": ({"f": 1, "e": 2},)}]}]}, {"n": 2 ** 53 + 1, "m": 10 ** 20}, {"s": "a" * 80}]
+    for v in fixed:
+        vs = [v, scramble(v, "rev"), scramble(v, "rot")] + near_misses(v, 60)
+        yield {"op": "tostr", "vs": [enc(x) for x in vs]}
+    for _ in range(1500 if thorough else 150):
+        v = {k: rand_value(rng, 3) for k in rng.sample(["a", "b", "c", "unit", "B"], rng.randint(1, 3))}
+        vs = [v, scramble(v, "rev"), scramble(v, "rot")] + near_misses(v, 40)
+        yield {"op": "tostr", "vs": [enc(x) for x in vs]}
+    for _ in range(200 if thorough else 20):
+        v = {k: rand_value(rng, 2, tuples=False) for k in rng.sample(["a", "b", "c"], 2)}
+        tag = rng.choice(DICT_TAGS)
+        vs = [v, dress(scramble(v, "rev"), picker(tag)), dress(v, rnd_picker())] + near_misses(v, 10)
+        yield {"op": "tostr", "vs": [enc(x) for x in vs]}
+    # ---- format_update_with / SetContext: a value is "the given value" unless it is itself a formatting string -------------
+    nested = [enc({"title": "{{a}}", "n": 1}), enc({"preamble": "\\newcommand{\\x}{1}"}), enc({"b": {"t": "{{a.b}}_{{zz}}"}}),
+              enc(["{{a}}", {"k": "{{a}}"}]), enc({"u": "{a}"}), enc({"u": "{{a"}), enc({"a": {"b": "{{a.b}}"}}), enc([]), enc(["}}{{"]),
+              {"T": ["{{a}}", 1]}, {"o": "{{a}}"}, {"pieces": [["field", [" a"]]]}, {"pieces": [["lit", "x_"], ["field", ["a ", "b "]]]},
+              {"raw": "{{ a}}_{{a }}"}, {"raw": "{{ a }}"}]
+    nd = [enc({"a": 1}), enc({"a": {"b": 2}, " a": "blank", "a ": {"b ": 3}}), enc({}), enc({"a": {"b": {"t": 0}}, "b": {"t": 1}}),
+          enc(dress({"a": {"b": 2}, "b": {"a": 1}}, picker("dd"))), enc(dress({"a": {"b": 2}}, picker("od"))),
+          enc({"a": Idx("ix"), "b": Idx("q")})]
+    for key in ("o", "a.b", "b", "a", "b.t", "a.b.t.u"):
+        for v in nested:
+            for d in nd:
+                yield {"op": "fuw", "key": key, "value": v, "d": d}
+            yield {"op": "setctx", "key": key, "value": v, "ctxs": nd}
+    for tag in DICT_TAGS:
+        for d0 in (rng.sample(small, 8)):
+            for o in (rng.sample(small, 3)):
+                yield {"op": "upd", "d": enc(dress(d0, picker(tag))), "other": {"v": enc(dress(o, rnd_picker()))}}
+    # ---- UpdateContext: what is inserted is a deep copy, whatever kind of container it is --------------------------------
+    for val in ALIAS_VALUES:
+        w = enc(val)
+        src_items = [enc({"hist": {"edges": val}}), enc({"hist": {"edges": val}, "plot": {"edges": 0}}),
+                     enc({"hist": {"edges": [val, {"k": val}]}, "plot": {"edges": {"old": 1}}}), None, enc({"hist": 5})]
+        for sub in ("plot.edges", "style"):
+            for rec in (True, False):
+                yield {"op": "uc", "alias": 1, "args": {"subcontext": sub, "update": {"v": w}, "value": False, "skip": False, "raise": False,
+                                            "recursively": rec},
+                       "items": [None, enc({}), enc({"style": {"k": 1}, "plot": {"edges": {"k": [1]}}}), enc({"plot": 1})]}
+                for dflt, skip in ((MISSING, False), (w, False), (enc({"dflt": val}), False), (MISSING, True)):
+                    a = {"subcontext": sub, "update": {"pieces": [["field", ["hist", "edges"]]]}, "value": True, "skip": skip,
+                         "raise": False, "recursively": rec}
+                    if dflt is not MISSING:
+                        a["default"] = dflt
+                    yield {"op": "uc", "alias": 1, "args": a, "items": src_items}
+    for _ in range(400 if thorough else 40):
+        val = rand_value(rng, 3)
+        if rng.random() < 0.5:
+            val = rng.choice([(val, [val]), {"k": (val, {1, 2})}, [Box(val)], {"s": {("t", 1)}, "v": val}])
+        a = {"subcontext": rng.choice(["o", "a.b", "hist.edges.x"]), "update": {"pieces": [["field", ["hist", "edges"]]]},
+             "value": True, "skip": False, "raise": False, "recursively": rng.random() < 0.5}
+        if rng.random() < 0.5:
+            a["default"] = enc(val)
+        yield {"op": "uc", "alias": 1, "args": a, "items": [enc({"hist": {"edges": val}}), enc({"hist": {"edges": [val]}, "a": {"b": {"c": 1}}}), None,
+                                                  enc({"a": 1})]}
+    # ---- UpdateContext / DeleteContext on contexts of dict subclasses and through indexable objects -----------------------
+    sub_items = [None]
+    for tag in DICT_TAGS:
+        for i in (3, 4, 6, 9, 12):
+            sub_items.append(enc(dress(ITEM_CTXS[i], picker(tag))))
+    sub_items += [enc({"a": Idx("ix"), "b": {"a": Idx("q"), "b": 1}}), enc({"a": {"b": Idx("ix")}, "c": Idx(None)}),
+                  enc(dress({"a": {"b": {"c": {"a": 1}}}, "b": {"a": {"b": 2}}}, rnd_picker()))]
+    for sub in ("o", "a.b", "b.a.c", "a", "c.d"):
+        for upd in ({"v": 7}, {"v": {"d": [["n", 1]]}}, {"s": "plain"}):
+            for rec in (True, False):
+                yield {"op": "uc", "alias": 1, "args": {"subcontext": sub, "update": upd, "value": False, "skip": False,
+                                                        "raise": False, "recursively": rec}, "items": sub_items}
+        for f in (["a"], ["a", "b"], ["b", "a", "b"], ["a", "c"], ["c"], ["c", "d"], ["a", "b", "c", "a"]):
+            for dflt, skip, rais in ((MISSING, False, False), (0, False, False), (MISSING, True, False), (MISSING, False, True)):
+                a = {"subcontext": sub, "update": {"pieces": [["field", f]]}, "value": True, "skip": skip, "raise": rais,
+                     "recursively": True}
+                if dflt is not MISSING:
+                    a["default"] = dflt
+                yield {"op": "uc", "alias": 1, "args": a, "items": sub_items}
+    for pth in all_paths(["a", "b"], 3) + [["c"], ["a", "c"], ["c", "d"], ["b", "a", "c", "d"], ["a", "b", "c", "a"]]:
+        for f in ({"s": ".".join(pth)}, {"l": list(pth)}, {"t": list(pth)}):
+            yield {"op": "dc", "key": f, "items": sub_items}
+    # a simple update whose value holds formatting strings: it is the given value
+    for sub in ("o", "a.b"):
+        for upd in ({"v": enc({"t": "{{a}}", "n": {"u": "{a}"}})}, {"v": enc(["{{a}}"])}):
+            for rec in (True, False):
+                yield {"op": "uc", "args": {"subcontext": sub, "update": upd, "value": False, "skip": False, "raise": False,
+                                            "recursively": rec}, "items": items}
+
 
 # ---------------------------------------------------------------------------------------------
 # the real code
@@ -883,7 +1403,7 @@ def _outcome(thunk, ident=MISSING):
 
 
 def _wjson(v):
-    return json.dumps(enc(v), separators=(",", ":"))
+    return json.dumps(for_model(enc(v)), separators=(",", ":"))
 
 
 def _code(thunk, ref):
@@ -900,20 +1420,34 @@ def _code(thunk, ref):
 
 
 def _poke(v, _seen=None):
-    """change every dictionary and list reachable from v in place (each once, also through cycles)"""
+    """change everything reachable from v that can be changed in place - dictionaries, lists, sets, bytearrays, the state of
+    foreign objects -, also inside tuples and frozensets (each object once, also through cycles)"""
     _seen = set() if _seen is None else _seen
     if id(v) in _seen:
         return
+    _seen.add(id(v))
     if isinstance(v, dict):
-        _seen.add(id(v))
         for x in list(v.values()):
             _poke(x, _seen)
         v["☠"] = 1
     elif isinstance(v, list):
-        _seen.add(id(v))
         for x in list(v):
             _poke(x, _seen)
         v.append("☠")
+    elif isinstance(v, (tuple, frozenset)):
+        for x in v:
+            _poke(x, _seen)
+    elif isinstance(v, set):
+        for x in list(v):
+            _poke(x, _seen)
+        v.add("☠")
+    elif isinstance(v, bytearray):
+        v.append(1)
+    elif isinstance(v, Box):
+        _poke(v.x, _seen)
+        v.x = ["☠", v.x]
+    elif isinstance(v, Idx):
+        v.m["☠"] = 1
 
 
 def _template_arg(v):
@@ -1215,8 +1749,12 @@ def _run_dc(case):
 # the model
 
 
+_UNMODELLED_WIRE = re.compile(r'"(py|T|S|FS|BA|box)": ')
+
+
 def _case_modelable(case):
-    return '"py"' not in json.dumps(case)
+    """no value of a kind the model does not have (a set, a tuple, a bytearray, a foreign object with state ...)"""
+    return not _UNMODELLED_WIRE.search(json.dumps(case))
 
 
 def _simple_str(x):
@@ -1310,10 +1848,74 @@ def _tmpl_wire(v):
     return v
 
 
-def model_requests(case):
+def _value_model_requests(case):
     if not _case_modelable(case) and case["op"] != "tostr":
+        return [], []
+    return _main_requests(case), _spec_ctx_requests(case)
+
+
+def _heap_ok(w):
+    """can the heap model (Model/C08Heap.lean) hold the wire value"""
+    if isinstance(w, dict):
+        for tag in ("L", "T", "S", "FS"):
+            if tag in w:
+                return all(_heap_ok(x) for x in w[tag])
+        if "d" in w:
+            return all(isinstance(k, str) and _heap_ok(x) for k, x in w["d"])
+        if "box" in w:
+            return _heap_ok(w["box"])
+        if "BA" in w:
+            return True
+        return "f" in w or "o" in w
+    return w is None or isinstance(w, (bool, int, str))
+
+
+def _alias_request(case):
+    """UpdateContext with object identities (ucCallH): cases marked by the generator whose update is a plain value or the
+    item named by {{key}} with value=True"""
+    if case["op"] != "uc" or not case.get("alias") or _uc_expect_init(case) != "ok":
+        return None
+    a = case["args"]
+    sub = a["subcontext"]
+    path = sub.split(".")
+    if not wf_path(path):
+        return None
+    u = a["update"]
+    src_path = None
+    if "v" in u:
+        if not _heap_ok(u["v"]):
+            return None
+        src = {"simple": u["v"]}
+    else:
+        f = _src_path(case)
+        if f is None or not wf_path(f):
+            return None
+        src = {"key": f}
+        if "default" in a:
+            if not _heap_ok(a["default"]):
+                return None
+            src["default"] = a["default"]
+        if not (f[:len(path)] == path or path[:len(f)] == f):
+            src_path = f
+    if not all(w is None or _heap_ok(w) for w in case["items"]):
+        return None
+    return {"op": "alias", "sub": path, "rec": bool(a.get("recursively", True)), "src": src, "srcpath": src_path,
+            "items": case["items"]}
+
+
+def _heap_requests(case):
+    if case["op"] == "tostr":
+        vt = [w for w in case["vs"] if modelable(tuples_as_lists(w))]
+        if any(has_tuple(w) for w in vt):
+            return [{"op": "to_string_h", "vs": vt}]
         return []
-    return _main_requests(case) + _spec_ctx_requests(case)
+    r = _alias_request(case)
+    return [r] if r else []
+
+
+def model_requests(case):
+    main, spec = _value_model_requests(case)
+    return [for_model(r) for r in main + spec + _heap_requests(case)]
 
 
 def _main_requests(case):
@@ -1395,8 +1997,50 @@ def compare(case, res, replies):
     for m in replies:
         if isinstance(m, dict) and "err" in m:
             return f"model driver error: {m['err']}"
-    n = len(_main_requests(case)) if (_case_modelable(case) or case["op"] == "tostr") else 0
-    return _compare_main(case, res, replies[:n]) or _compare_spec(case, res, replies[n:])
+    main, spec = _value_model_requests(case)
+    n, m = len(main), len(main) + len(spec)
+    return _compare_main(case, res, replies[:n]) or _compare_spec(case, res, replies[n:m]) or _compare_heap(case, res, replies[m:])
+
+
+def _compare_heap(case, res, replies):
+    """the heap model (object identities, values with tuples) against the real code"""
+    if not replies:
+        return None
+    m = replies[0]
+    if case["op"] == "tostr":
+        idx = [i for i, w in enumerate(case["vs"]) if modelable(tuples_as_lists(w))]
+        vs = [dec(case["vs"][i]) for i in idx]
+        for k, i in enumerate(idx):
+            if res["r"][i] != m["r"][k]:
+                return f"to_string (values with tuples) #{i}: impl {res['r'][i]} vs heap model {m['r'][k]}"
+        for a in range(len(vs)):
+            for b in range(len(vs)):
+                if m["eq"][a][b] != strict_eq(vs[a], vs[b]):
+                    return f"Lean pyEqH({vs[a]!r}, {vs[b]!r}) = {m['eq'][a][b]} differs from the (type-strict) Python equality"
+                if m["jeq"][a][b] != strict_eq(vs[a], vs[b], arrays=True):
+                    return f"Lean pyEq on toVal ({vs[a]!r}, {vs[b]!r}) = {m['jeq'][a][b]} differs from equality up to tuple/list"
+        return None
+    if case["op"] == "uc":
+        if res["init"] != "ok":
+            return f"UpdateContext (heap model): construction raised {res['init']}"
+        for i, (c, mc) in enumerate(zip(res["calls"], m["calls"])):
+            if "err" in mc:
+                return f"heap model: {mc['err']}"
+            if mc.get("skip"):
+                # nothing is copied: the value is returned as it is, or LenaKeyError is raised
+                if not (c.get("e") == "LenaKeyError" or (c.get("same") and "e" not in c)):
+                    return f"uc call on item {i} (heap model): the key is missing, impl {c}"
+                continue
+            if "e" in c or c.get("ctx") is None:
+                return f"uc call on item {i} (heap model): impl {c} vs model {mc}"
+            if not weq(c["ctx"], mc["ctx"]):
+                return f"uc call on item {i} (heap model): impl {jdump(c['ctx'])} vs model {jdump(mc['ctx'])}"
+            leaks = sorted(x for x in c.get("leaks", []) if x != "second-call")
+            if leaks != sorted(mc["leaks"]):
+                return (f"uc call on item {i}: changing the inserted item in place changed {leaks} in the real code, "
+                        f"{mc['leaks']} in the heap model")
+        return None
+    return None
 
 
 def _compare_spec(case, res, replies):
@@ -1412,7 +2056,7 @@ def _compare_spec(case, res, replies):
             return f"Lean pieceWFB = {m['wf']} on {pieces}, Python reference {piece_wf(pieces)}"
         for w, mc in zip(ctxs, m["ctxs"]):
             c = dec(w)
-            if not isinstance(c, dict):
+            if not isinstance(c, dict) or wire_has_subclass(w):
                 continue
             fields = [x for k, x in pieces if k == "field"]
             present = all(ref_get(c, f) is not MISSING for f in fields)
@@ -1467,7 +2111,7 @@ def _compare_spec(case, res, replies):
             sub = d.get(path[0], MISSING)
             refs["sub"] = sub if isinstance(sub, dict) else {}
             for k, ref in refs.items():
-                if not strict_eq(dec(m[k]), ref):
+                if not weq(m[k], enc(ref)):
                     return f"Lean spec '{k}' (ucSet/delPath/nestPath/subDict) = {dec(m[k])!r} on {d!r}, {path}, {u!r}; Python {ref!r}"
         return None
     if op in ("tostr", "wfdup"):
@@ -1478,6 +2122,8 @@ def _compare_spec(case, res, replies):
         if op == "tostr":
             for w, m in zip(vs, replies[1]["r"]):
                 v = dec(w)
+                if wire_has_subclass(w):
+                    continue            # str() of an instance of a dict subclass is not the repr of the dictionary
                 if (m is not None) != ref_str_modelled(v):
                     return f"Lean pyStrVal defined = {m is not None} on {v!r}, Python reference {ref_str_modelled(v)}"
                 if m is not None and m != str(v):
@@ -1532,6 +2178,8 @@ def _compare_main(case, res, replies):
         if res["init"] != "ok":
             return None
         for i, (a, b) in enumerate(zip(res["calls"], m["calls"])):
+            if "r" in a and "r" in b and a["r"] != b["r"] and wire_has_subclass(case["ctxs"][i]):
+                continue        # str() of an instance of a dict subclass was rendered: not the repr of a dict (oracle only)
             msg = _cmp_out(f"format call {i}", {k: v for k, v in a.items() if k in ("r", "e")}, b)
             if msg:
                 return msg
@@ -1825,7 +2473,8 @@ def _oracle_tostr(case, res):
             if same and rs[i]["r"] != rs[j]["r"]:
                 return (f"equal dictionaries give different strings: to_string({vs[i]!r}) = {rs[i]['r']!r}, "
                         f"to_string({vs[j]!r}) = {rs[j]['r']!r}")
-            if not same and rs[i]["r"] == rs[j]["r"]:
+            # JSON has one array type: a tuple and a list with the same members are written alike (recorded in ASSUMPTIONS)
+            if not strict_eq(vs[i], vs[j], arrays=True) and rs[i]["r"] == rs[j]["r"]:
                 return f"different dictionaries {vs[i]!r} and {vs[j]!r} give the same string {rs[i]['r']!r}"
     return None
 
@@ -1833,7 +2482,7 @@ def _oracle_tostr(case, res):
 def _serializable(v):
     if isinstance(v, dict):
         return all(_serializable(x) for x in v.values())
-    if isinstance(v, list):
+    if isinstance(v, (list, tuple)):
         return all(_serializable(x) for x in v)
     return v is None or isinstance(v, (bool, int, str, float))
 
@@ -2347,7 +2996,10 @@ LEVEL_TEXT = ("Lean 4 theorems about a transcribed model of get_recursively/str_
               "paths of length 0..4, the notations, the whole UpdateContext option matrix, all short templates) and samples "
               "larger ones (quick: 400 of the 21609 depth-3 contexts), executes the specification-side definitions against Python "
               "references, and a reference oracle (naive path lookup / set / delete / render) on the real code including "
-              "observed deep-copy behaviour.")
+              "observed deep-copy behaviour. A second, heap-level model (object identities) carries the theorems about "
+              "'a deep copy': every mutable object of the inserted item is new, an in-place change of it is not seen through the "
+              "default, the update argument, the old context or any older value, and forgetting identities gives the value model; "
+              "it is compared with in-place changes observed on the real code.")
 LEVEL_NOTE = ("Trusted: Lean kernel (+ propext, Classical.choice, Quot.sound), the hand transcription validated by the "
               "correspondence run, str.format / json.dumps (number spelling) / re / str.isspace / jinja2 fragments as transcribed, "
               "copy.deepcopy as identity on values (aliasing checked on the real code only), the JSON protocol. Model replies "
